@@ -84,6 +84,8 @@ impl Loader for LocalLoader {
             if iri.starts_with(ns.as_str()) {
                 let subpath = Path::new(&iri[ns.len()..]);
                 let resource_path: PathBuf = path.join(subpath);
+                #[cfg(feature = "sophia_verif")]
+                verif::log_path(&resource_path);
                 return match read(resource_path) {
                     Ok(data) => Ok((data, self.ctype(iri))),
                     Err(e) if e.kind() == IoErrorKind::NotFound => {
@@ -114,6 +116,26 @@ impl Loader for LocalLoader {
             Iri::new_unchecked(iri.to_owned().into()),
             "no matching local path".into(),
         ))
+    }
+}
+
+/// Verification hook: a thread-local log of every path handed to the file system.
+#[cfg(feature = "sophia_verif")]
+pub mod verif {
+    use std::cell::RefCell;
+    use std::path::{Path, PathBuf};
+
+    thread_local! {
+        static LOG: RefCell<Vec<PathBuf>> = const { RefCell::new(Vec::new()) };
+    }
+
+    pub(super) fn log_path(p: &Path) {
+        LOG.with(|l| l.borrow_mut().push(p.to_path_buf()));
+    }
+
+    /// Return and clear the log of paths read by [`LocalLoader`](super::LocalLoader) on this thread.
+    pub fn take_log() -> Vec<PathBuf> {
+        LOG.with(|l| std::mem::take(&mut *l.borrow_mut()))
     }
 }
 
